@@ -127,10 +127,28 @@ def rearm(ctx: Any) -> List[Ob]:
         (base.methods.get('_async_start'), '_async_start_query_sender', 'a started browser starts its query sender'),
         (base.methods.get('_async_start_query_sender'), 'start', 'the query sender starts the scheduler (after the instance has started)'),
         (qs.methods.get('start'), 'call_later', 'starting the scheduler arms the timer of the first start-up query'),
-        (qs.methods.get('_schedule_ptr_refresh'), '_schedule_ptr_query', 'a refresh computed for a pointer is put on the heap'),
-        (qs.methods.get('schedule_rescue_query'), '_schedule_ptr_query', None),
-        (qs.methods.get('_schedule_ptr_query'), 'heappush', 'a scheduled query is pushed onto the heap'),
     ]
+    # ... every routine of the scheduler that builds a scheduled query hands it to the heap (through the scheduling primitive
+    # -- the routine that calls heappush -- or a helper that reaches it) on every path from the construction on; the rescue
+    # query is conditional by design (not scheduled at or after expiry): there the hand-over must be REACHABLE
+    prims = _push_primitives(ctx)
+    pushers_all = _pushers(ctx)
+    for f in sorted(qs.methods.values(), key=lambda g_: g_.name):
+        fcfg = cfg_of(f.node)
+        built = [n for n in fcfg.nodes if any(call_name(c) == '_ScheduledPTRQuery' for c in n.calls())]
+        if not built:
+            continue
+        hits = [n for n in fcfg.nodes if any(call_name(c) in pushers_all and f.params and isinstance(c.func, ast.Attribute) and isinstance(c.func.value, ast.Name) and c.func.value.id == f.params[0] for c in n.calls())]
+        if f.name == 'schedule_rescue_query':
+            obs.append(ob(R, f, 'schedule(...)', 'a rescue query that is due before expiry is put on the heap', bool(hits)))
+            continue
+        skip = [b for b in built if b not in hits and fcfg.path_avoiding(b, lambda n: n is fcfg.exit, lambda n: n in hits) is not None]
+        obs.append(ob(R, f, built[0].ast, 'a refresh computed for a pointer is put on the heap -- on every path', bool(hits) and not skip, '' if hits else f'{f.name} builds a scheduled query and hands it to nothing that pushes'))
+    for f in prims:
+        fcfg = cfg_of(f.node)
+        hits = [n for n in fcfg.nodes if any(call_name(c) == 'heappush' for c in n.calls())]
+        skip2 = fcfg.path_avoiding(fcfg.entry, lambda n: n is fcfg.exit, lambda n: n in hits)
+        obs.append(ob(R, f, 'heappush(...)', 'a scheduled query is pushed onto the heap -- on every path', skip2 is None))
     for f, callee, what in chain:
         if f is None:
             raise AnalysisError(f'anchor vanished: a routine of the browser start-up chain (the one that calls {callee})')
@@ -317,7 +335,7 @@ def pair(ctx: Any) -> List[Ob]:
                 tgt = x.func.value.id
                 if tgt in rescue_lists:
                     out.append('RESCUE')
-                elif tgt in ready_sets:
+                if tgt in ready_sets:
                     out.append('READY')
             if call_name(x) == 'schedule_rescue_query' and node.in_loop and any(isinstance(l, ast.While) for l in node.in_loop):
                 out.append('RESCUE')
@@ -332,6 +350,15 @@ def pair(ctx: Any) -> List[Ob]:
     # the list whose elements are later handed to schedule_rescue_query, and the set handed to async_send_ready_queries
     rescue_lists = {norm(lp.iter) for lp in walk_local_ordered(proc.node) if isinstance(lp, ast.For) and any(isinstance(c, ast.Call) and call_name(c) == 'schedule_rescue_query' and c.args and norm(c.args[0]) == norm(lp.target) for c in ast.walk(lp))}
     ready_sets = {norm(c.args[2]) for c in walk_local_ordered(proc.node) if isinstance(c, ast.Call) and call_name(c) == 'async_send_ready_queries' and len(c.args) >= 3}
+    # ... or a collection the set is built from afterwards, element by element and unfiltered (`{q.name for q in due}`)
+    from .common import expand as _xp_r
+
+    for rs_ in list(ready_sets):
+        for c_ in walk_local_ordered(proc.node):
+            if isinstance(c_, ast.Call) and call_name(c_) == 'async_send_ready_queries' and len(c_.args) >= 3 and norm(c_.args[2]) == rs_:
+                e_ = _xp_r(proc, c_.args[2], 1)
+                if isinstance(e_, (ast.SetComp, ast.ListComp, ast.GeneratorExp)) and len(e_.generators) == 1 and not e_.generators[0].ifs and isinstance(e_.generators[0].iter, ast.Name):
+                    ready_sets.add(e_.generators[0].iter.id)
     atoms = {k: False for k in done_atoms(ctx, proc)}
     live = dict(atoms)
     live[f'{me}._query_heap'] = ['q']
@@ -440,7 +467,7 @@ def pair(ctx: Any) -> List[Ob]:
     me = rf.params[0]
     rcfg = cfg_of(rf.node)
     # the push: the scheduling primitive itself, or a helper of the class that reaches it
-    pushers = {m_.name for m_ in qs.methods.values() if m_ is not rf and any(g_.name == '_schedule_ptr_refresh' and g_.cls is qs for g_ in ctx.cg.closure([m_], include_deferred=False))}
+    pushers = {n_ for n_ in _pushers(ctx) if n_ != rf.name}
     sched = [n for n in rcfg.nodes if any(call_name(c) in pushers and isinstance(c.func, ast.Attribute) and isinstance(c.func.value, ast.Name) and c.func.value.id == me for c in n.calls())]
     flag_nodes = [n for n in rcfg.nodes if n.kind == 'stmt' and any(t.attr == 'cancelled' and isinstance(st_, ast.Assign) and isinstance(st_.value, ast.Constant) and st_.value.value is True for t, st_ in attr_stores(n.ast))]
     unmap = [n for n in rcfg.nodes if n.kind == 'stmt' and (isinstance(n.ast, ast.Delete) or any(call_name(c) == 'pop' for c in n.calls()))]
@@ -469,18 +496,38 @@ def pair(ctx: Any) -> List[Ob]:
     # (twice in one datagram, or by a type and its subtype) gets two live heap entries for one map entry, and the second pop
     # finds the map entry gone: KeyError in the timer callback, which is then never re-armed
     for m_ in sorted(qs.methods.values(), key=lambda g_: g_.name):
-        if m_.name.startswith('__') or not any(g_.name == '_schedule_ptr_refresh' and g_.cls is qs for g_ in ctx.cg.closure([m_], include_deferred=False)):
+        if m_.name.startswith('__') or m_.name not in _pushers(ctx):
             continue
         ext_callers = [s_ for s_ in ctx.cg.callers_of(m_) if s_.caller.cls is not qs]
         if not ext_callers:
             continue
         mme = m_.params[0]
         mcfg = cfg_of(m_.node)
-        push_nodes = [n for n in mcfg.nodes if any((call_name(c) in pushers or call_name(c) == '_schedule_ptr_refresh') and isinstance(c.func, ast.Attribute) and isinstance(c.func.value, ast.Name) and c.func.value.id == mme for c in n.calls())]
+        push_nodes = [n for n in mcfg.nodes if any(call_name(c) in (pushers - {m_.name}) and isinstance(c.func, ast.Attribute) and isinstance(c.func.value, ast.Name) and c.func.value.id == mme for c in n.calls())]
         reads = [n for n in mcfg.nodes if n.ast is not None and any(self_attr(x, mme) == '_next_scheduled_for_alias' for x in ast.walk(n.ast)) and n not in push_nodes]
         unguarded = [pn for pn in push_nodes if mcfg.path_avoiding(mcfg.entry, lambda n, pn=pn: n is pn, lambda n: n in reads) is not None]
         obs.append(ob(R, m_, push_nodes[0].ast if push_nodes else m_.name, f'{m_.name}() is called from outside the scheduler ({ext_callers[0].caller.qual}): it looks the alias up in the schedule map before it pushes, on every path', bool(push_nodes) and not unguarded, 'a path reaches the push without consulting the schedule map' if unguarded else ''))
     return obs
+
+
+def _push_primitives(ctx: Any) -> List[FuncInfo]:
+    """The routines of the scheduler that push onto the query heap themselves (call heappush on it)."""
+    qs = ctx.prog.cls(QS)
+    out = []
+    for m_ in qs.methods.values():
+        mm = m_.params[0] if m_.params else 'self'
+        if any(isinstance(c, ast.Call) and call_name(c) == 'heappush' and c.args and self_attr(c.args[0], mm) == '_query_heap' for c in walk_local_ordered(m_.node)):
+            out.append(m_)
+    if not out:
+        raise AnalysisError('anchor vanished: the routine of the scheduler that pushes onto the query heap')
+    return sorted(out, key=lambda g_: g_.name)
+
+
+def _pushers(ctx: Any) -> Set[str]:
+    """Names of the scheduler routines that push or reach a routine that pushes (not through a deferred call)."""
+    qs = ctx.prog.cls(QS)
+    prims = set(_push_primitives(ctx))
+    return {m_.name for m_ in qs.methods.values() if m_ in prims or any(g_ in prims for g_ in ctx.cg.closure([m_], include_deferred=False))}
 
 
 @rule('C10.CONST', 'D', expect_min=8)
@@ -596,7 +643,13 @@ def const(ctx: Any) -> List[Ob]:
     for t in tests:
         try:
             p, op = lf.comparison(prog, su.module, t.ast, lambda x: 'S' if self_attr(x, me) == '_startup_queries_sent' else None)
-            ok_sw = lf.same_cmp((p, op), lf.parse_cmp('4 - S <= 0'))
+            # the switch (the timer armed for refresh processing at an absolute time) lies on the arm `sent >= 4`, whichever way
+            # round the test is spelled
+            at_nodes = [n for n in cfg.nodes if any(call_name(c) == 'call_at' for c in n.calls())]
+            if lf.same_cmp((p, op), lf.parse_cmp('4 - S <= 0')):
+                ok_sw = bool(at_nodes) and all(cfg.only_through_edge(t, True, a_) for a_ in at_nodes)
+            elif lf.same_cmp((p, op), lf.parse_cmp('S - 4 < 0')):
+                ok_sw = bool(at_nodes) and all(cfg.only_through_edge(t, False, a_) for a_ in at_nodes)
         except lf.NotLinear:
             pass
     obs.append(ob(R, su, tests[0].ast if tests else 'startup switch', 'after the fourth start-up query the scheduler switches to refresh processing', ok_sw))
